@@ -227,10 +227,43 @@ pub struct Executed {
     pub out: J,
     pub log: Vec<String>,
     pub bind_after_ok: bool,
+    /// form "vm": the compiled code of every program and the interpreter's step events
+    pub vm: J,
 }
+
+/// The interpreter's events (cfg(rscel_verif) tracer) in the encoding of Trace_VM.tla.
+fn events_json(evs: &[rscel::verif::Event]) -> J {
+    use rscel::verif::{Event, StackItem};
+    J::Array(
+        evs.iter()
+            .map(|e| match e {
+                Event::Enter { frame, parent, guard, code, params, detached } => json!({
+                    "e":"enter","f":frame,"p":parent,"g":guard,"detached":detached,"code":crate::proj::code_inline(code),
+                    "vars": params.iter().map(|(k, v)| (k.clone(), crate::val::project(v).to_json())).collect::<serde_json::Map<_, _>>(),
+                }),
+                Event::Step { frame, pc, stack } => json!({
+                    "e":"step","f":frame,"pc":pc,
+                    "st": stack.iter().map(|i| match i {
+                        StackItem::Value(v) => crate::proj::value_inline(v),
+                        StackItem::BoundCall(v) => json!({"t":"bound","recv":crate::proj::value_inline(v)}),
+                    }).collect::<Vec<_>>(),
+                }),
+                Event::Exit { frame } => json!({"e":"exit","f":frame}),
+            })
+            .collect(),
+    )
+}
+
+pub const VM_EVENT_LIMIT: usize = 3000;
 
 /// Compile and execute under catch_unwind.  `main` is the name of the program to run.
 pub fn execute(p: &Prepared, funcs: &BTreeMap<String, J>) -> Executed {
+    execute_traced(p, funcs, None)
+}
+
+/// `names`: record the interpreter's steps, looking these names up in each activation's bindings.
+pub fn execute_traced(p: &Prepared, funcs: &BTreeMap<String, J>, names: Option<Vec<String>>) -> Executed {
+    let mut vm = J::Null;
     CALL_LOG.with(|l| l.borrow_mut().clear());
     let closures: Vec<(String, Box<dyn Fn(CelValue, Vec<CelValue>) -> CelValue>)> = funcs
         .iter()
@@ -281,7 +314,24 @@ pub fn execute(p: &Prepared, funcs: &BTreeMap<String, J>) -> Executed {
         for (name, f) in closures.iter() {
             b.bind_func(name, f.as_ref());
         }
+        if let Some(names) = names.as_ref() {
+            let code_of = |n: &str| {
+                ctx.get_program(n)
+                    .map(|p| crate::proj::code_inline(&p.bytecode().iter().cloned().collect::<Vec<_>>()))
+                    .unwrap_or(J::Null)
+            };
+            vm = json!({
+                "blocks": [code_of("main")],
+                "pblocks": p.prog_srcs.keys().map(|k| (k.clone(), json!([code_of(k)]))).collect::<serde_json::Map<_, _>>(),
+            });
+            rscel::verif::install(VM_EVENT_LIMIT, names.clone());
+        }
         let r = ctx.exec("main", &b);
+        if names.is_some() {
+            let evs = rscel::verif::take();
+            vm["events"] = events_json(&evs);
+            vm["truncated"] = J::from(evs.len() >= VM_EVENT_LIMIT);
+        }
         // the caller's bindings must be what they were
         for (k, v) in p.params.iter() {
             if let (Some(now), Some(c)) = (b.get_param(k), v.to_cel()) {
@@ -297,7 +347,7 @@ pub fn execute(p: &Prepared, funcs: &BTreeMap<String, J>) -> Executed {
         Err(p) => crash(&panic_msg(p)),
     };
     let log = CALL_LOG.with(|l| l.borrow().clone());
-    Executed { out, log, bind_after_ok }
+    Executed { out, log, bind_after_ok, vm }
 }
 
 /// Run one case in a child process (a stack overflow or abort must not take the harness down).
@@ -358,6 +408,21 @@ pub fn run_case(case: &Case, rng: &mut Rng) -> J {
                 _ => (crash("thread died"), vec![], true),
             };
             obs.push(json!({"form": form, "src": src, "out": out, "log": log, "bind_ok": ok}));
+            continue;
+        }
+        if form == "vm" {
+            // the bound form with the compiled code and the interpreter's steps recorded
+            let p = prepare(case, "bound", rng);
+            let mut names: Vec<String> = Vec::new();
+            crate::tree::ident_names(&case.tree, &mut names);
+            for t in case.progs.values() {
+                crate::tree::ident_names(t, &mut names);
+            }
+            names.extend(case.bind.keys().cloned());
+            names.sort();
+            names.dedup();
+            let e = execute_traced(&p, &case.funcs, Some(names));
+            obs.push(json!({"form": form, "src": p.main_src, "out": e.out, "log": e.log, "bind_ok": e.bind_after_ok, "vm": e.vm}));
             continue;
         }
         let p = prepare(case, form, rng);
